@@ -142,27 +142,36 @@ def judge(ctx, records, module="JudgeMesh", workers=16, tag="rec"):
     errs = {r["id"]: r["error"] for r in records if "error" in r}
     good = [r for r in records if "error" not in r]
     failed, drift = {}, {}
-    if good:
-        path = os.path.join(ctx.work, "%s_%d.ndjson" % (tag, len(ctx.tlc_runs)))
+    # TLC deserialises the whole record file in memory: judge in batches
+    BATCH = 20000
+    for b0 in range(0, len(good), BATCH):
+        part = good[b0 : b0 + BATCH]
+        path = os.path.join(ctx.work, "%s_%d_%d.ndjson" % (tag, len(ctx.tlc_runs), b0))
         with open(path, "w") as fh:
-            for r in good:
+            for r in part:
                 fh.write(json.dumps(r) + "\n")
         res = ctx.tlc_ok(
             module,
             "INIT Init\nNEXT Next\nINVARIANT Judge\nCHECK_DEADLOCK FALSE\n",
-            what="judge %d implementation records" % len(good),
+            what="judge %d implementation records" % len(part),
             env={"REC_FILE": path},
             workers=workers,
             count=False,
             timeout=3000,
         )
-        if res.distinct < len(good):
-            raise Machinery("judge visited %d states for %d records" % (res.distinct, len(good)))
+        if res.distinct < len(part):
+            raise Machinery("judge visited %d states for %d records" % (res.distinct, len(part)))
+        n_lines = res.out.count('"V"') + res.out.count('"D"')
+        n_parsed = 0
         for v in res.prints:
             if isinstance(v, tuple) and len(v) == 3 and v[0] == "V":
                 failed[v[1]] = set(v[2])
+                n_parsed += 1
             elif isinstance(v, tuple) and len(v) == 3 and v[0] == "D":
                 drift[v[1]] = set(v[2])
-        ctx.traces += len(good)
+                n_parsed += 1
+        if n_parsed != n_lines:
+            raise Machinery("judge printed %d verdict lines, %d parsed" % (n_lines, n_parsed))
+        ctx.traces += len(part)
         os.remove(path)
     return failed, drift, errs
